@@ -44,6 +44,16 @@ type Scenario struct {
 	// Shared is set when the threads legitimately influence each other's results (a shared
 	// sampler): the differential per-thread oracle is then off and Check decides.
 	Shared bool
+	// Env, when non-nil, lists the indices of ENVIRONMENT threads (a shutdown event, a peer that
+	// legitimately decides what the others observe). The differential oracle of the other
+	// threads then is a PROJECTION REPLAY: after every execution, for each non-environment thread
+	// i, the scenario is executed again with only {i} + Env (+ the daemon goroutines of the
+	// instance, + the Prefix), the scheduler following the order the kept threads had in the
+	// original execution; thread i's observable (or "BLOCKED(op)" if it never returns) must be
+	// the same: its outcome depends on its own order relative to the environment, never on the
+	// other threads. A blocked execution is then no finding by itself (a thread that also blocks
+	// alone under the same order is not disturbed by its peers).
+	Env []int
 	// DiffClass, when set, classifies HOW an observable differs from its sequential reference
 	// (e.g. the first deviating stage "response"); the class becomes part of the differential signature.
 	DiffClass func(got, want string) string
